@@ -101,10 +101,10 @@ QUICK_STDLIB = ["RoundRobinArbiter_4", "RoundRobinArbiterEn_3", "Mux_8_4", "Mux_
 GEN_C12 = {
     "quick": [("unit", 40), ("ops", 8), ("expr", 10), ("ctrl", 12), ("loopidx", 10), ("struct", 16), ("hier", 10),
               ("seq", 8), ("misc", 12),
-              ("nd", nd_idx([2], ["port", "sport", "wire", "pfield", "pfwire", "pftmp", "ifc", "ifcnest", "ifcport", "comp", "compifc",
-                                  "compport", "ffwire", "constarr"])
-               + nd_idx([3], ["port", "ifc", "ifcport"]) + nd_idx([1], ["ifcnest", "ifcport", "compport", "ffwire"])),
-              ("lv", 8)],
+              ("nd", nd_idx([2], ["port", "sport", "wire", "pfield", "pfwire", "pftmp", "ifc", "ifcnest", "ifcport", "comp",
+                                  "compifc", "ffwire", "constarr"])
+               + nd_idx([3], ["port", "ifc"]) + nd_idx([1], ["ifcnest", "ifcport"])),
+              ("lv", [0, 2, 4, 5, 6, 7])],
     # (one full round of the grid and a second round of its 2-D part; unit 320 -> 240, ops 300 -> 220,
     # expr 240 -> 200, ctrl 200 -> 170, struct 180 -> 160, hier 120 -> 110 make room for it)
     "thorough": [("unit", 240), ("ops", 220), ("expr", 200), ("ctrl", 170), ("loopidx", 100), ("struct", 160),
